@@ -777,6 +777,11 @@ class SigmaRegularExpression(SigmaType):
     def add_flag(self, flag: SigmaRegularExpressionFlag) -> None:
         self.flags.add(flag)
 
+    def __repr__(self) -> str:
+        # (the flags in a defined order: the representation is used in error messages)
+        flags = ", ".join(repr(flag) for flag in sorted(self.flags, key=lambda flag: flag.value))
+        return f"{self.__class__.__name__}(regexp={self.regexp!r}, flags={{{flags}}})"
+
     def compile(self) -> None:
         """Verify if regular expression is valid by compiling it"""
         try:
